@@ -60,6 +60,8 @@ def main():
         for l in open(OUT):
             r = json.loads(l); done[r['id']] = r
     sample = [d for d in sample if d not in done]
+    if len(sys.argv) > 4:
+        rnd.shuffle(sample); sample = sample[:int(sys.argv[4])]
     print('%d mutants to run (%d done before)' % (len(sample), len(done)), flush=True)
     with open(OUT, 'a') as out, concurrent.futures.ThreadPoolExecutor(max_workers=3) as ex:
         for r in ex.map(run_one, sample):
